@@ -166,7 +166,22 @@ func (ex *Exec) concreteStr(v Value) Value {
 }
 
 func (ex *Exec) assert(cond Value, msgV Value) {
-	msg, _ := ex.forceStr(msgV).(string)
+	msg, isConc := ex.forceStr(msgV).(string)
+	if !isConc {
+		msg = "(message with symbolic text)"
+		if ss, ok := ex.forceStr(msgV).(*SymStr); ok {
+			// keep the concrete prefix
+			var b []byte
+			for _, x := range ss.b {
+				c, ok := x.(int64)
+				if !ok {
+					break
+				}
+				b = append(b, byte(c))
+			}
+			msg = string(b) + "…"
+		}
+	}
 	switch c := cond.(type) {
 	case bool:
 		if c {
